@@ -63,6 +63,20 @@ def make_world(r, gentle=False):
     k_force = 0.5 if gentle else 3.0
     fmax = 0.033 if gentle else 1.0
     fmin = 0.01 if gentle else 0.05
+    wd = _make_world(r, k_rate, k_force, fmin, fmax)
+    u = r.random()
+    if u < 0.08:
+        # a straight, non-rotating leg: consecutive attitudes (almost) identical
+        wd['rate_terms'] = []
+    elif u < 0.2:
+        # heading within two degrees of the +-180 degree wrap, yawing across it
+        wd['rph0'][2] = float((180.0 - r.uniform(0, 2)) * (1 if r.random() < 0.5 else -1))
+        wd['rate_terms'].append([float(r.uniform(0.05, k_rate)) if k_rate > 0.05 else k_rate,
+                                 float(r.uniform(fmin, fmax)), float(r.uniform(0.5, 2.6)), 2])
+    return wd
+
+
+def _make_world(r, k_rate, k_force, fmin, fmax):
     return dict(
         lat=float(r.uniform(-78, 78)), lon=float(r.uniform(-180, 180)),
         alt=float(r.uniform(-100, 10000)),
